@@ -371,6 +371,23 @@ def schema_digest(schema):
             "keytype": dtname(schema.keytype), "datatype": dtname(schema.datatype)}
 
 
+def position_urls(schema):
+    """URLs recorded in the positions of default values (observation only)."""
+    out = set()
+    for t in [schema] + [schema.gettype(n) for n in schema.gettypenames()]:
+        if t.isabstract():
+            continue
+        for _key, info in t:
+            if info.issection():
+                continue
+            d = info.getdefault()
+            for vi in (d if isinstance(d, list) else [d]):
+                pos = getattr(vi, "position", None)
+                if pos:
+                    out.add(pos[2])
+    return out
+
+
 def defaults_projection(dig):
     out = {}
     for n, t in list(dig["types"].items()) + [("", dig["top"])]:
@@ -416,6 +433,7 @@ def load(kind, way, top, cwd, cfg_schema, suffix=""):
         dig = schema_digest(schema)
         conf, _h = ZConfig.loadConfigFile(schema, io.StringIO(BEHAVIOUR_CONFIG[kind]))
         dig["behaviour"] = top_tree(conf)
+        dig["#position-urls"] = sorted(position_urls(schema), key=repr)
         return ("ok", dig, schema.url)
     except ZConfig.ConfigurationError as e:
         return ("config-error", err_desc(e), None)
@@ -437,12 +455,29 @@ def check_state(tree, kind, layout, cwdk, acc, cfg_schema, variants=("good", "ba
     cwd = tree.cwd(cwdk)
     old = os.getcwd()
 
+    pending = {}
+
     def viol(kind_, variant, way, observed, expected):
-        acc.violation(kind_, dict(case0, variant=variant, way=way), observed, expected,
-                      tags={"kind": kind_, "ref": kind, "variant": variant,
-                            "way": way if way in ("fileobj-abs", "fileobj-rel") else
-                            ("any" if way is None else way),
-                            "name-feature": feature})
+        pending.setdefault((kind_, variant), []).append((way, observed, expected))
+
+    def flush(ways_used):
+        # one violation per (kind, variant); the tag says which ways of naming fail
+        for (kind_, variant), items in sorted(pending.items()):
+            failing = sorted({w for w, _o, _e in items})
+            if set(failing) == set(ways_used):
+                wcls = "all"
+            elif all(w.startswith("fileobj") for w in failing):
+                wcls = "fileobj-only"
+            elif not any(w.startswith("fileobj") for w in failing):
+                wcls = "named-only:" + "+".join(failing)
+            else:
+                wcls = "mixed:" + "+".join(failing)
+            way, observed, expected = items[0]
+            acc.violation(kind_, dict(case0, variant=variant, way=way, failing_ways=failing),
+                          observed, expected,
+                          tags={"kind": kind_, "ref": kind, "variant": variant, "ways": wcls,
+                                "name-feature": feature})
+        pending.clear()
 
     try:
         for variant in variants:
@@ -464,9 +499,15 @@ def check_state(tree, kind, layout, cwdk, acc, cfg_schema, variants=("good", "ba
             for way in ways:
                 st, val, url = results[way]
                 acc.cls("b:%s:%s:%s" % (kind, variant, st if st != "config-error" else val["class"]))
+                if st == "ok" and kind != "include":
+                    # observation, not part of the verdict: see tools/notes/C18.md
+                    for pu in val.pop("#position-urls"):
+                        if not (isinstance(pu, str) and pu.startswith("file:///")):
+                            acc.extra["b:obs:default-position-url-not-a-file-url:" + way] += 1
                 if st == "internal":
                     viol("internal-error", variant, way, val, "result or ConfigurationError")
             if any(results[w][0] == "internal" for w in ways):
+                flush(ways)
                 continue
             if variant == "good":
                 _judge_good(kind, results, top, viol, acc)
@@ -478,6 +519,7 @@ def check_state(tree, kind, layout, cwdk, acc, cfg_schema, variants=("good", "ba
                         viol("fragment-accepted", variant, way, results[way][:2],
                              "ConfigurationError / SchemaError")
                 acc.clause("b:fragment-rejected")
+            flush(ways)
         acc.sample(lambda: dict(case0, ref_top_to_mid=tree.ref(layout[1], "mid"),
                                 ref_mid_to_leaf=tree.ref(layout[2], "leaf")))
     finally:
@@ -647,5 +689,8 @@ def replay(body):
     for v in acc.violations.values():
         print("REPLAY violation:", v["kind"], "case=", v["case"], "observed=", v["observed"],
               "expected=", v["expected"])
+    if acc.samples:
+        print("REPLAY case as executed:", acc.samples[-1])
+    print("REPLAY outcome classes:", dict(acc.classes))
     print("replayed: %d violation signature(s)" % len(acc.violations))
     return 1 if acc.violations else 0
